@@ -179,7 +179,13 @@ func c12Frames(r *rand.Rand, i int, cat []c11Class) []c12Frame {
 		switch c := r.IntN(100); {
 		case c < 45: // valid message of any type
 			label := c11Labels[r.IntN(len(c11Labels))]
-			m := c11GenMsg(r, label, true)
+			// authenticity is demanded of EVENT only: an AUTH whose event nobody signed is a
+			// valid client message and must reach the handler
+			unsignedAuth := label == "AUTH" && r.IntN(2) == 0
+			m := c11GenMsg(r, label, !unsignedAuth)
+			if unsignedAuth {
+				label = "AUTH-not-signed"
+			}
 			t, tree := text(m)
 			if tree == nil || c11RefValid(tree).Class() != "wf" {
 				continue
@@ -280,6 +286,14 @@ func TestVerif_C12(t *testing.T) {
 		frames := c12Frames(r, i, cat)
 		c12Connection(rep, i, r, frames, "")
 	})
+	// several connections served by one Relay at the same time, each getting large messages
+	// that name their connection: every frame must decode to the message emitted for this
+	// connection, in emission order (nothing of another session, nothing torn)
+	nShared := vk.N(3, 40)
+	for i := 0; i < nShared && rep.Violations() < 3; i++ {
+		c12SharedRelay(rep, i)
+	}
+	rep.Require(rep.Counter("shared_relay_connections") >= int64(nShared*4), "connections sharing a relay")
 	rep.Require(rep.Counter("connections") >= int64(nConn*9/10), "connections")
 	rep.Require(rep.SetSize("server_message_types") == 7, "all seven server message types")
 	rep.Require(rep.SetSize("frame_classes") >= 40, "frame classes")
@@ -625,4 +639,92 @@ func c12Connection(rep *vk.Report, i int, r *rand.Rand, frames []c12Frame, sigPr
 	}
 	conn.Close(websocket.StatusNormalClosure, "")
 	time.Sleep(0)
+}
+
+// c12SharedText is the NOTICE text the shared-relay handler emits as reply j to request k of
+// connection c: a header and 48-160 kB of a pattern that differs between connections.
+func c12SharedText(c, k, j int) string {
+	size := 48000 + (c*7919+k*104729+j*1299709)%112000
+	return fmt.Sprintf("%sconn %d req %d reply %d⟧", c12Mark, c, k, j) + strings.Repeat(string(rune('a'+c%26))+string(rune('A'+k%26)), size/2)
+}
+
+func c12SharedRelay(rep *vk.Report, i int) {
+	const nReq, nReply = 8, 2
+	nClients := 4 + i%5
+	h := mocrelay.HandlerFunc(func(ctx context.Context, send chan<- mocrelay.ServerMsg, recv <-chan mocrelay.ClientMsg) error {
+		for {
+			select {
+			case <-ctx.Done():
+				return ctx.Err()
+			case m, ok := <-recv:
+				if !ok {
+					return mocrelay.ErrRecvClosed
+				}
+				rq, is := m.(*mocrelay.ClientReqMsg)
+				if !is {
+					continue
+				}
+				var c, k int
+				if _, err := fmt.Sscanf(rq.SubscriptionID, "c%d-k%d", &c, &k); err != nil {
+					continue
+				}
+				for j := 0; j < nReply; j++ {
+					select {
+					case send <- mocrelay.NewServerNoticeMsg(c12SharedText(c, k, j)):
+					case <-ctx.Done():
+						return ctx.Err()
+					}
+				}
+			}
+		}
+	})
+	opt := mocrelay.NewDefaultRelayOption()
+	opt.RecvRateLimitRate = 1e9
+	opt.RecvRateLimitBurst = 1 << 30
+	opt.PingDuration = 0
+	srv := httptest.NewServer(mocrelay.NewRelay(h, opt))
+	defer srv.Close()
+	var wg sync.WaitGroup
+	for c := 0; c < nClients; c++ {
+		wg.Add(1)
+		go func(c int) {
+			defer wg.Done()
+			ctx, cancel := context.WithTimeout(context.Background(), 3*vk.WaitBound)
+			defer cancel()
+			conn, _, err := websocket.Dial(ctx, "ws"+strings.TrimPrefix(srv.URL, "http"), nil)
+			if err != nil {
+				rep.Inconclusive(fmt.Sprintf("C12: dial failed: %v", err))
+				return
+			}
+			defer conn.CloseNow()
+			conn.SetReadLimit(16 << 20)
+			go func() {
+				for k := 0; k < nReq; k++ {
+					if conn.Write(ctx, websocket.MessageText, []byte(fmt.Sprintf(`["REQ","c%d-k%d",{}]`, c, k))) != nil {
+						return
+					}
+				}
+			}()
+			for n := 0; n < nReq*nReply; n++ {
+				typ, data, err := conn.Read(ctx)
+				if err != nil {
+					rep.Inconclusive(fmt.Sprintf("C12: shared relay %d connection %d: read failed after %d frames: %v", i, c, n, err))
+					return
+				}
+				rep.Eval(1)
+				want := c12SharedText(c, n/nReply, n%nReply)
+				m, derr := c12Decode(data)
+				nm, isNotice := m.(*mocrelay.ServerNoticeMsg)
+				if typ != websocket.MessageText || derr != nil || !isNotice || nm.Message != want {
+					got := string(data)
+					rep.Violation("output/shared-relay/foreign-or-torn-frame", fmt.Sprintf("connection %d of %d on one relay: frame %d is not the message the handler emitted for this connection at this position", c, nClients, n),
+						map[string]any{"relay": i, "connection": c, "frame_number": n, "frame_head": got[:min(len(got), 160)], "frame_length": len(got), "expected_head": want[:60], "expected_length": len(want) + 12, "decode_error": fmt.Sprint(derr)})
+					return
+				}
+			}
+			rep.Count("shared_relay_connections", 1)
+			rep.Nontrivial(fmt.Sprintf("shared-relay/%d/%d", i, c))
+		}(c)
+	}
+	wg.Wait()
 }
